@@ -580,6 +580,10 @@ class UserTrackingManager:
                 # there is a "ghost" user being tracked
                 if tracked_user.queue.empty():
                     request.handled.set()
+                    # Remove the entry before returning: a track request made
+                    # before the done callback runs must create a new worker
+                    if self._tracked_users.get(tracked_user.user.name) is tracked_user:
+                        del self._tracked_users[tracked_user.user.name]
                     return
 
             elif previous_flags == TrackingFlag(0) or is_retry:
@@ -707,7 +711,8 @@ class UserTrackingManager:
             )
 
         finally:
-            self._tracked_users.pop(tracked_user.user.name, None)
+            if self._tracked_users.get(tracked_user.user.name) is tracked_user:
+                del self._tracked_users[tracked_user.user.name]
 
     async def _on_state_changed(self, event: ConnectionStateChangedEvent):
         if not isinstance(event.connection, ServerConnection):
@@ -728,5 +733,9 @@ class UserTrackingManager:
             if tracked_user.retry_task:
                 tracked_user.retry_task.cancel()
                 tasks.append(tracked_user.retry_task)
+
+        # Cancelled workers no longer read their queue: drop the entries now
+        # so that a new track request creates a new worker
+        self._tracked_users.clear()
 
         return tasks
